@@ -68,6 +68,20 @@ Example C11_witness_repaired :
      (mkS 0 0 PWaitReg [] 0 [] [] None))) = [1; 2; 3; 4; 5].
 Proof. vm_compute. repeat split; reflexivity. Qed.
 
+(* a Put whose caller gives up (context cancelled between the commit of the wrapped store and the
+   dispatch) is an ordinary append for every live stream; with a context that is already done bolt
+   refuses the write (nothing is stored, nothing is sent) while memdb stores regardless *)
+Definition cancelled_put_schedule (pre : bool) : list sev :=
+  [SPut 11; SPut 12; SPut 13; SStart 1 2; SAck 0 true; SAck 0 true; SRegister 0; SStart 2 0; SRegister 1;
+   SPut 14; SAck 0 true; SAck 1 true; SPutCtx 15 pre; SAck 0 true; SAck 1 true; SPut 16; SAck 0 true; SAck 1 true].
+Example C11_cancelled_put :
+  map (fun s => map fst (s_sent s)) (streams (ss_run Bolt (ss_init 10) (cancelled_put_schedule false))) = [[2; 3; 4; 5; 6]; [4; 5; 6]] /\
+  map (fun s => map fst (s_sent s)) (streams (ss_run Mem (ss_init 10) (cancelled_put_schedule false))) = [[2; 3; 4; 5; 6]; [4; 5; 6]] /\
+  map (fun s => map fst (s_sent s)) (streams (ss_run Mem (ss_init 10) (cancelled_put_schedule true))) = [[2; 3; 4; 5; 6]; [4; 5; 6]] /\
+  map (fun s => map snd (s_sent s)) (streams (ss_run Bolt (ss_init 10) (cancelled_put_schedule true))) = [[12; 13; 14; 16]; [14; 16]] /\
+  map fst (store (ss_run Bolt (ss_init 10) (cancelled_put_schedule true))) = [0; 1; 2; 3; 4; 5].
+Proof. vm_compute. repeat split; reflexivity. Qed.
+
 (* ---------- non-vacuity: two concurrent streams and a reconnect under the same id; the streams
    have delivered several rounds and are registered ---------- *)
 Definition busy_schedule : list sev :=
